@@ -36,7 +36,7 @@ ALL = ['C%02d' % i for i in range(1, 21)]
 GUARDS = [
     (r'networking/connection\.py$',
      ['C11', 'C10', 'C09', 'C13', 'C14', 'C15', 'C16', 'C12', 'C01', 'C06',
-      'C18']),
+      'C18', 'C08']),
     (r'networking/encryption\.py$', ['C18', 'C17', 'C10', 'C11', 'C01']),
     (r'authentication\.py$', ['C19', 'C10']),
     (r'types/basic\.py$', ['C02', 'C03', 'C04', 'C05', 'C01', 'C07', 'C11']),
@@ -53,7 +53,7 @@ GUARDS = [
     (r'serverbound/', ['C06', 'C05', 'C07', 'C10', 'C09', 'C11']),
     (r'minecraft/__init__\.py$', ['C08', 'C06', 'C09', 'C05']),
     (r'minecraft/utility\.py$', ['C08', 'C06', 'C05']),
-    (r'minecraft/exceptions\.py$', ['C14', 'C10', 'C09', 'C19']),
+    (r'minecraft/exceptions\.py$', ['C19', 'C14', 'C10', 'C09']),
 ]
 
 CMP = {ast.Lt: '<=', ast.LtE: '<', ast.Gt: '>=', ast.GtE: '>', ast.Eq: '!=',
